@@ -393,8 +393,10 @@ def _do_cont(s, cont, mapping):
             del s.verif_inputs.schedule[keypoll]
 
 
-def reference_run(program, conts, part, case, second_run=True):
-    """Session A.  -> dict(outs=[bytes...], stack_empty=bool)"""
+def reference_run(program, conts, part, case, second_run=True, after_first=None):
+    """Session A.  -> dict(outs=[bytes...], stack_empty=bool).
+    after_first: a direct statement executed after the first RUN (the refused RENUM of the refused+ variants: whatever
+    it leaves behind - ERR/ERL, a trap that took the refusal - is then the same in both sessions)."""
     s = R.bounded_session(LIMIT)
     it = _interp(s)
     _enter(s, program, part, case)
@@ -417,7 +419,18 @@ def reference_run(program, conts, part, case, second_run=True):
         outs.append(r.out)
         if i == 0:
             stack_empty = not it.gosub_stack
-    return {'outs': outs, 'stack_empty': stack_empty}
+            if after_first is not None:
+                ra = R.run(s, after_first)
+                if ra.exc is not None:
+                    part.violation('original/host-exception/' + H.exc_key(ra.exc),
+                                   'original program %r: %r raised %r' % (listing(program), after_first, ra.exc), case)
+                    raise Abort()
+                after = (ra.err, ra.out)
+                stack_empty = not it.gosub_stack
+    res = {'outs': outs, 'stack_empty': stack_empty}
+    if after_first is not None:
+        res['after_first'] = after
+    return res
 
 
 def trap_label(s, old):
@@ -514,6 +527,13 @@ def _run_b(part, ns, program, spec, conts, kinds, argname, args, ref, case, seco
             part.outcome('first-renum-not-refused' if (it.error_num, it.error_pos) == err_before else 'first-renum-error-trapped')
             return
         err_before = (it.error_num, it.error_pos)
+        # the reference for this variant is the original program with the same refused statement in its history
+        # (the refusal sets ERR / ERL and may have gone through the program's error handler)
+        if 'refused' not in ref:
+            ref['refused'] = reference_run(program, conts, part, dict(case, args=None), second_run, after_first=REFUSED_FIRST)
+        ref = ref['refused']
+        if ref['after_first'] != (rp.err, rp.out):
+            raise CheckError('%s differs between two sessions: %r vs %r' % (REFUSED_FIRST, ref['after_first'], (rp.err, rp.out)))
     r = R.run(s, cmd)
     text = b' / '.join(listing(program)).decode('latin-1')
     if r.exc is not None:
